@@ -10,8 +10,11 @@ NOT_APPLICABLE = {
            'neither Verus (unsupported constructs) nor Kani (HashMap-based builder times out) can ingest it. Its function-level '
            'ingredients are decided under C02/C03/C04/C10/C16.',
     'C05': 'a relation between the 2600-line type checker (inference over recursive Expr<Type>, HashMap<String,StructDef>) and the '
-           'compiler with no function boundary that carries it; the one contractable ingredient (every emitted gate refers only to '
-           'earlier wires) is the wf clause proved under C04.',
+           'compiler with no function boundary that carries it; the contractable ingredients are proved under C04 / C16 (every emitted gate '
+           'refers only to earlier wires; CircuitBuilder::build returns a circuit with the parties of the builder and 161 panic outputs followed '
+           'by the requested outputs, which satisfies the structural conditions of Circuit::validate when there is an input bit, and validate is '
+           'complete for them); that the requested outputs have the size of the return type and the parties the sizes of the parameter types is a '
+           'fact about TypedExpr::compile and the checker, which are not under contract.',
     'C06': 'determinism under arbitrary HashMap seeds is a 2-trace property of iteration order; vstd exposes HashMap only through its '
            'order-free Map view and rejects the iterating functions; not a pre/postcondition of one call.',
     'C07': 'totality of scan/parse/check/compile over all strings: &str/char iterators, Peekable token streams and mutual recursion '
